@@ -360,6 +360,7 @@ class Aggregate(object):
         self.signatures = set()
         self.fired = {}
         self.probes = {}
+        self.extra = {}
         self.steps = 0
         self.simtime = 0.0
         self.samples = []
@@ -376,6 +377,8 @@ class Aggregate(object):
             self.fired[k] = self.fired.get(k, 0) + v
         for k, v in r.get('probes', {}).items():
             self.probes[k] = self.probes.get(k, 0) + v
+        for k, v in r.get('extra_probes', {}).items():
+            self.extra[k] = self.extra.get(k, 0) + v
         self.steps += r.get('steps', 0)
         self.simtime += r.get('simtime', 0.0)
         self.viol_total += len(r['violations'])
@@ -407,6 +410,11 @@ class Aggregate(object):
             'harness_errors': len(harness_errors),
             'event_log_digest': self.digest.hexdigest()[:32],
         }
+        if self.extra:
+            # e.g. C12: thread switches per source function (top 40)
+            top = sorted(self.extra.items(), key=lambda kv: -kv[1])[:40]
+            cov['switches_per_function'] = dict(top)
+            cov['functions_with_switches'] = len(self.extra)
         extra = getattr(p, 'extra_evidence', None)
         if extra:
             cov.update(extra())
